@@ -152,6 +152,14 @@ def run_dino(case):
     coll = mod.KDDinoMaskCollator(mask_ratio=tuple(case["ratio"]), mask_prob=case["prob"], mask_size=(case["H"], case["W"]),
                                   num_views=case["V"], min_num_patches=case["minp"], min_aspect=case["min_aspect"],
                                   max_aspect=case.get("max_aspect"), dataset_mode=case["mode"], return_ctx=True)
+    # state carried across calls: the SAME collator object first collates earlier batches of other sizes; the judged batch
+    # must not depend on them (budget, shapes and pass-through are per batch)
+    for j, b in enumerate(case.get("warm_B", [])):
+        coll.rng = RecRng(case["seed"] + 17 + j, [])
+        try:
+            coll(make_batch(dict(case, B=b)))
+        except Exception:  # noqa
+            break
     coll.rng = RecRng(case["seed"], log)
     og_gen, og_blk = coll._generate_mask, coll._mask_block
 
@@ -279,7 +287,8 @@ def gen_dino(rng, small=False):
     return {"kind": "dino", "H": H, "W": W, "B": rng.randint(1, 6), "V": rng.randint(1, 3), "ratio": [lo, hi],
             "prob": rng.choice([0, 0.25, 0.3, 0.5, 0.5, 0.75, 1, 1]), "minp": rng.choice([1, 2, 4, 4, 9]),
             "min_aspect": ma, "max_aspect": rng.choice([None, None, 1 / ma + 1.0, 1.0 if ma <= 1 else None]),
-            "seed": rng.randrange(1 << 30), "mode": mode, "xviews": views}
+            "seed": rng.randrange(1 << 30), "mode": mode, "xviews": views,
+            "warm_B": rng.choice([[], [], [8], [1], [6, 2], [3, 8]])}
 
 
 # ----------------------------------------------------------------------------------------------
@@ -320,6 +329,13 @@ def make_ijepa(case, log, seed):
                                    encoder_mask_scale=tuple(case["enc_scale"]), predictor_mask_scale=tuple(case["pred_scale"]),
                                    predictor_aspect_ratio=tuple(case["pred_ar"]), num_enc_masks=case["nEnc"], num_pred_masks=case["nPred"],
                                    min_keep=case["minKeep"], tries=case["tries"], dataset_mode=case["mode"], return_ctx=True)
+    for j, b in enumerate(case.get("warm_B", [])):
+        # earlier batches on the same object (the step counter is set afterwards: it is the only state the property allows)
+        coll.rng = RecRng(seed + 17 + j, [], budget=case.get("budget", DRAW_BUDGET))
+        try:
+            coll(make_batch(dict(case, B=b)))
+        except Exception:  # noqa
+            break
     coll.rng = RecRng(seed, log, budget=case.get("budget", DRAW_BUDGET))
     coll._itr_counter.value = case["counter"]
     return mod, coll
@@ -484,7 +500,8 @@ def gen_ijepa(rng, small=False):
     return {"kind": "ijepa", "H": H, "W": W, "ps": rng.choice([1, 2, 16]), "B": rng.randint(1, 5), "enc_scale": list(es),
             "pred_scale": list(pscale), "pred_ar": list(par), "nPred": rng.randint(1, 4), "nEnc": rng.randint(1, 2),
             "minKeep": mk, "tries": rng.choice([1, 2, 20]), "counter": rng.randint(-1, 20),
-            "seed": rng.randrange(1 << 30), "mode": rng.choice(["x", "index x", "x class"]), "budget": 1200}
+            "seed": rng.randrange(1 << 30), "mode": rng.choice(["x", "index x", "x class"]), "budget": 1200,
+            "warm_B": rng.choice([[], [], [], [3], [1, 4]])}
 
 
 def transparent(case, ans):
